@@ -20,10 +20,11 @@ PROPERTY = "C13"
 SHRINK_LISTS = ()
 
 PLACEMENTS = ("none", "error_handler", "format_exceptions", "render_context", "include_handler",
-              "error_handler_false", "include_handler_false", "none_base", "error_handler_false_base", "error_handler_base")
+              "error_handler_false", "include_handler_false", "none_base", "error_handler_false_base", "error_handler_base",
+              "include_handler_inc_only", "include_handler_main_only")
 # handlers declining, and raises that are not an Exception (SystemExit-like): a sample of the raise points
 SAMPLED_PLACEMENTS = {"error_handler_false": 12, "include_handler_false": 12, "none_base": 6, "error_handler_false_base": 8,
-                      "error_handler_base": 6}
+                      "error_handler_base": 6, "include_handler_inc_only": 10, "include_handler_main_only": 10}
 IMPORT = "<%! from vsim.c13rt import p, S, flt, dec, it, Boom %>"
 
 RULE = ("one case = one generated template program (top-level defs that are plain / buffered / filtered / cached / decorated / "
@@ -426,9 +427,19 @@ class Harness:
         elif placement == "include_handler_false":
             kw["include_error_handler"] = lambda context, error: None
         lk = TemplateLookup(**kw)
+        accept = lambda context, error: True
         for uri, text in self.texts.items():
-            # distinct module names per placement so cache namespaces never mix
-            lk.put_string(uri, text)
+            # the include_error_handler that counts is the INCLUDED template's own
+            if placement == "include_handler_inc_only" and uri.startswith("/inc"):
+                from mako.template import Template as _T
+
+                lk.put_template(uri, _T(text, uri=uri, lookup=lk, include_error_handler=accept, **kw))
+            elif placement == "include_handler_main_only" and not uri.startswith("/inc"):
+                from mako.template import Template as _T
+
+                lk.put_template(uri, _T(text, uri=uri, lookup=lk, include_error_handler=accept, **kw))
+            else:
+                lk.put_string(uri, text)
         real_get = lk.get_template
         ids = self.lookup_ids
 
@@ -587,7 +598,7 @@ class Harness:
         prog = self.prog
         fault = tuple(fault[:2]) + (("base",) if pl.endswith("_base") else ())
         self.current = {"placement": pl, "fault": list(fault[:2])}
-        m = Interp(prog, fault=fault, include_handler=(pl == "include_handler"))
+        m = Interp(prog, fault=fault, include_handler=(pl in ("include_handler", "include_handler_inc_only")))
         mr = m.render()
         real = self.real_render(pl, fault)
         where = m.raised_in or "?"
@@ -614,7 +625,8 @@ class Harness:
                 # the inherited template could not be located: raised while the inheritance chain is set up,
                 # before any template code runs; the property's handler clauses speak of raise points of a render
                 pass
-            elif pl in ("none", "include_handler", "error_handler_false", "include_handler_false", "none_base", "error_handler_false_base"):
+            elif pl in ("none", "include_handler", "error_handler_false", "include_handler_false", "none_base", "error_handler_false_base",
+                        "include_handler_inc_only", "include_handler_main_only"):
                 if real["status"] != "raised" or real["exc"] is not c13rt_raised(real) or (
                         pl.endswith("_base") and getattr(real["exc"], "code", None) != 7):
                     self.flag("exception-identity", "%s: expected the original exception object to propagate, got %s"
@@ -641,7 +653,7 @@ class Harness:
                 if real["status"] != "raised" or real["exc"] is not real["raised_obj"] or not isinstance(real["exc"], c13rt.Boom):
                     self.flag("exception-identity", "%s: render_context should raise the original exception, got %r" % (fdesc, real.get("exc")), label)
                 self.check_context_state(real, partial, fdesc, label)
-        again = Interp(prog, fault=None, cache=m.cache, include_handler=(pl == "include_handler")).render()
+        again = Interp(prog, fault=None, cache=m.cache, include_handler=(pl in ("include_handler", "include_handler_inc_only"))).render()
         if real["second"] != again[1]:
             self.flag("second-render", "%s: rendering the same Template again gave %r, expected %r"
                       % (fdesc, real["second"], again[1]), label)
